@@ -4,9 +4,10 @@
 (* A state is an abstract configuration cfg (which elements are OPF variables, which limit levels apply, AC or DC,     *)
 (* solver options, cost kind per element, coefficient variant) together with what the specification REQUIRES of the    *)
 (* result, computed from cfg alone:                                                                                    *)
-(*   req.feasible    the integer dispatch grid of the DC problem has a feasible point (radial DC cases)                *)
-(*   req.gridopt     the exact optimum of the DC problem by brute force over the integer grid (NoOpt if not applicable) *)
-(*   req.applicable / req.exact   whether that optimum is an oracle (radial lossless DC) and whether it is two-sided    *)
+(*   req.applicable / req.exact   whether the brute-force optimum over the integer dispatch grid is an oracle for this     *)
+(*                   configuration (radial lossless DC) and whether it is two-sided (linear / convex pwl costs)          *)
+(*   req.gridopt     that optimum (NoOpt: grid infeasible, or not derived in the model because the grid is larger than   *)
+(*                   GridModelMax -- OpfObs.tla derives it for every executed case)                                       *)
 (*   req.dev         classes in which the objective AS TRANSCRIBED FROM make_objective.py differs from the user's       *)
 (*                   cost function (empty = the code's objective is the user's); used to predict, not to decide         *)
 (*   req.lawdiff     the dcline loss law of the OPF constraint differs from the power-flow law                          *)
@@ -19,7 +20,8 @@ CONSTANTS Slice,            \* "feas" | "cost"
           AcSet, OptSet, MeshSet, DclSet, EgcSet, VbandSet, PlimSet, QlimSet, RateSet, VarSet,
           CtrlSets,         \* feas: the sets of controllable Flex elements to enumerate
           Profiles,         \* feas: cost profiles to enumerate
-          MaxCosted         \* cost: at most this many elements carry a cost row
+          MaxCosted,        \* cost: at most this many elements carry a cost row
+          GridModelMax      \* the model derives the grid optimum itself for dispatch grids up to this size (OpfObs always does)
 VARIABLES cfg, req
 
 AllCtrl == [e \in Flex |-> TRUE]
@@ -32,8 +34,13 @@ ProfileKind(p, e) ==
     [] p = "pwl"  -> IF Inverted(e) THEN "pwl1" ELSE IF e = "gen" THEN "pwl2" ELSE "pwl3"
 KindOfProfile(p, ctrl, dcl) ==
   [e \in Et |-> IF (IF e \in PQ THEN ctrl[e] ELSE (e # "dcline" \/ dcl # 0)) THEN ProfileKind(p, e) ELSE "none"]
-\* "cost" slice: every assignment of kinds to at most MaxCosted elements
-KindVecs == UNION {{[e \in Et |-> IF e \in S THEN f[e] ELSE "none"] : f \in [S -> Kinds \ {"none"}]} :
+\* "cost" slice: every assignment of kinds to at most MaxCosted elements that the code accepts (OpfDef!Valid states the
+\* reasons); the sets are built from admissible parts only, so that no large intermediate set has to be filtered.
+\* (TLC evaluates constant definitions eagerly: each slice's sets are empty in the other slice)
+AllowedKinds(e) == (Kinds \ {"none"}) \ ((IF Inverted(e) THEN {"pwl2", "pwl3"} ELSE {}) \cup (IF e \in {"gen", "sgen", "load"} THEN {} ELSE QKinds))
+Compatible(f, S) == LET ks == {f[e] : e \in S} IN ~(ks \cap PwlKinds # {} /\ (ks \cap QuadKinds # {} \/ ks \cap QKinds # {}))
+KindVecs == IF Slice # "cost" THEN {} ELSE
+            UNION {{[e \in Et |-> IF e \in S THEN f[e] ELSE "none"] : f \in {g \in [S -> Kinds \ {"none"}] : (\A e \in S : g[e] \in AllowedKinds(e)) /\ Compatible(g, S)}} :
                      S \in {T \in SUBSET Et : Cardinality(T) \in 1..MaxCosted}}
 Base == [ac : AcSet, opts : OptSet, mesh : MeshSet, dcl : DclSet, egc : EgcSet, vband : VbandSet, plim : PlimSet,
          qlim : QlimSet, rate : RateSet, var : VarSet]
@@ -41,21 +48,31 @@ Ext(b, ctrl, kind) == [ac |-> b.ac, opts |-> b.opts, mesh |-> b.mesh, dcl |-> b.
                        plim |-> b.plim, qlim |-> b.qlim, rate |-> b.rate, var |-> b.var, ctrl |-> ctrl, kind |-> kind]
 \* levels that cannot influence a DC OPF are fixed there (no voltage magnitudes, no reactive power); the DC problem is an
 \* LP / QP that the default solver options already solve to 1e-7, so the tightened options are enumerated for AC only
-Canonical(c) == c.ac \/ (c.vband = "wide" /\ c.qlim = "loose" /\ c.egc /\ c.opts = "default")
-\* cost slice: a dcline only when it carries a cost; AC cases with loose limits (the limit levels matter for the optimum,
-\* which is decided for DC cases only)
-CanonicalCost(c) == (c.kind["dcline"] = "none" => c.dcl = 0) /\ (c.ac => (c.plim = "loose" /\ c.rate = "loose"))
-FeasConfigs == {Ext(b, CtrlOf(S), KindOfProfile(p, CtrlOf(S), b.dcl)) : b \in Base, S \in CtrlSets, p \in Profiles}
-\* cost slice: controllable = everything, or exactly the costed elements (the others keep their set points)
-CostConfigs == UNION {{Ext(b, AllCtrl, k), Ext(b, [e \in Flex |-> k[e] # "none"], k)} : b \in Base, k \in KindVecs}
-Configs == IF Slice = "feas" THEN {c \in FeasConfigs : Valid(c) /\ Canonical(c)}
-           ELSE {c \in CostConfigs : Valid(c) /\ Canonical(c) /\ CanonicalCost(c)}
+Canon(S) == CHOOSE x \in S : TRUE
+DcOpts == "default"
+Canonical(c) == c.ac \/ (c.vband = Canon(VbandSet) /\ c.qlim = Canon(QlimSet) /\ c.egc = Canon(EgcSet) /\ c.opts = DcOpts)
+FeasBase == {b \in Base : Canonical(b)}
+FeasConfigs == IF Slice # "feas" THEN {} ELSE {Ext(b, CtrlOf(S), KindOfProfile(p, CtrlOf(S), b.dcl)) : b \in FeasBase, S \in CtrlSets, p \in Profiles}
+\* cost slice: a dcline only when it carries a cost (lossless or lossy); AC cases with loose limits (the limit levels matter
+\* for the optimum, which is decided for DC cases only); reactive costs in AC only; controllable = everything, or exactly
+\* the costed elements (the others keep their set points)
+CostBase(k) ==
+  LET dcls == IF k["dcline"] = "none" THEN {0} ELSE DclSet \ {0}
+      hasq == \E e \in Et : k[e] \in QKinds
+      acp == IF TRUE \in AcSet THEN [ac : {TRUE}, opts : OptSet, mesh : MeshSet, dcl : dcls, egc : {Canon(EgcSet)}, vband : {Canon(VbandSet)},
+                                     plim : {"loose"}, qlim : {Canon(QlimSet)}, rate : {"loose"}, var : VarSet] ELSE {}
+      dcp == IF FALSE \in AcSet /\ ~hasq THEN [ac : {FALSE}, opts : {DcOpts}, mesh : MeshSet, dcl : dcls, egc : {Canon(EgcSet)}, vband : {Canon(VbandSet)},
+                                               plim : PlimSet, qlim : {Canon(QlimSet)}, rate : RateSet, var : VarSet] ELSE {}
+  IN  acp \cup dcp
+CostConfigs == IF Slice # "cost" THEN {} ELSE
+               UNION {UNION {{Ext(b, AllCtrl, k), Ext(b, [e \in Flex |-> k[e] # "none"], k)} : b \in CostBase(k)} : k \in KindVecs}
+Configs == {c \in (IF Slice = "feas" THEN FeasConfigs ELSE CostConfigs) : Valid(c)}
 
 Pending == [done |-> FALSE]
 Required(c) ==
-  LET opt == IF GridApplicable(c) THEN GridOpt(c) ELSE NoOpt
-  IN  [done |-> TRUE, applicable |-> GridApplicable(c), exact |-> GridExact(c), gridopt |-> opt,
-       feasible |-> opt # NoOpt \/ ~GridApplicable(c),
+  LET known == GridApplicable(c) /\ Cardinality(Dispatches(c)) <= GridModelMax
+  IN  [done |-> TRUE, applicable |-> GridApplicable(c), exact |-> GridExact(c), gridknown |-> known,
+       gridopt |-> IF known THEN GridOpt(c) ELSE NoOpt,
        dev |-> DevClasses(c), lawdiff |-> DclPfLawDiffers(c)]
 
 \* (initial states are generated sequentially by TLC, successor states in parallel: the derivation is an action)
@@ -69,29 +86,30 @@ ASSUME \A br \in Branches, l \in {"loose", "tight"} : Cap(br, l) * 100 = Sn(br) 
 \* (1) the objective the solver must be given: only odd-degree coefficients change sign for negative generators; with
 \*     that transformation the solver-side polynomial at pg = -p IS the user's polynomial at p, for every grid power
 ObjectiveConvention ==
-  \A e \in Costed(cfg) : LET row == Inst(cfg).cost[e]
+  req.done => \A e \in Costed(cfg) : LET row == CostRowOf(cfg, e)
                              g == ReqGenCost(row, e)
                              s == IF Inverted(e) THEN -1 ELSE 1
                          IN  row.kind = "poly" => \A p \in PRange(cfg, e) : g[1] * (s * p) * (s * p) + g[2] * (s * p) + g[3] = UserRowP(row, p)
 \* (2) generated piecewise linear costs are well formed: consecutive, increasing slopes (convex), covering [min_p, max_p]
 PwlWellFormed ==
-  \A e \in Costed(cfg) : LET row == Inst(cfg).cost[e] IN row.kind = "pwl" =>
+  req.done => \A e \in Costed(cfg) : LET row == CostRowOf(cfg, e) IN row.kind = "pwl" =>
       /\ \A k \in 1..(Len(row.pts) - 1) : row.pts[k][2] = row.pts[k + 1][1] /\ row.pts[k][3] < row.pts[k + 1][3]
       /\ \A k \in 1..Len(row.pts) : row.pts[k][1] < row.pts[k][2]
       /\ row.pts[1][1] <= PLim(e, cfg.plim)[1] /\ row.pts[Len(row.pts)][2] >= PLim(e, cfg.plim)[2]
 \* (3) every cost stays inside the fixed-point range of the observations (|cost| < 1000 EUR)
-CostInRange == CostAbsBound(cfg) < 1000
+CostInRange == req.done => CostAbsBound(cfg) < 1000
 \* (4) the transcribed pwl objective of the code equals the user's pwl function wherever the model generates pwl rows
 \*     (single area for negative generators, any number of areas otherwise): a deviation there would be a new finding
 PwlTranscriptionAgrees ==
-  \A e \in Costed(cfg) : LET row == Inst(cfg).cost[e] IN row.kind = "pwl" =>
+  req.done => \A e \in Costed(cfg) : LET row == CostRowOf(cfg, e) IN row.kind = "pwl" =>
       \A p \in PRange(cfg, e) : CodeRowP(row, e, TRUE, p) = UserRowP(row, p)
 \* (5) sanity of the brute-force optimum: it is the cost of a feasible grid dispatch, and widening the p limits (every
 \*     tight range lies inside the loose one) can only lower it
 GridOptSane ==
-  (req.done /\ req.applicable /\ req.feasible) =>
-      /\ LET rows == Inst(cfg).cost IN \E d \in Dispatches(cfg) : Feasible(cfg, d) /\ GridCostR(rows, d) = req.gridopt
-      /\ (cfg.plim = "tight" => GridOpt([cfg EXCEPT !.plim = "loose"]) <= req.gridopt)
+  (req.done /\ req.gridknown /\ req.gridopt # NoOpt) =>
+      /\ LET rows == [e \in Et |-> CostRowOf(cfg, e)] IN \E d \in Dispatches(cfg) : Feasible(cfg, d) /\ GridCostR(rows, d) = req.gridopt
+      /\ LET loose == [cfg EXCEPT !.plim = "loose"]
+         IN  (cfg.plim = "tight" /\ Cardinality(Dispatches(loose)) <= GridModelMax) => GridOpt(loose) <= req.gridopt
 \* (6) the grid stays within the enumeration budget
-GridSmall == Cardinality(Dispatches(cfg)) <= 6 * 6 * 6 * 6 * 3
+GridSmall == req.done => Cardinality(Dispatches(cfg)) <= 6 * 6 * 6 * 6 * 3
 =============================================================================
